@@ -16,6 +16,8 @@ Case shapes (JSON)
    "cur":null|{"matched","matchdict","get","route_name"},"path":asset spec}
   Q = null | {"t":"null"} | {"t":"str","v":s} | {"t":"pairs","form":"dict|list|tuples|multidict|itemsobj","seq":"list|tuple|gen","v":[[k,V]]}
   V = null | str | int | [leaf…]   leaf = str | int | [..] (a nested sequence is rendered by str())
+  leaf values (elements, route values, query keys/values): str | int | true/false | {"f":"1.0"} (float) | {"b":text} (bytes, UTF-8)
+  {"op":"history","calls":[url case…]}   the calls in this order after one cache reset, and each on its own
   {"op":"quote"|"quote_plus","s":text,"safe":ascii}   {"op":"urlencode","pairs":[[k,V]]}
   {"op":"urlsplit"|"parse_qsl"|"unquote"|"unquote_plus","s":text}
 """
@@ -32,7 +34,7 @@ from pyramid import encode as P_encode
 from pyramid import url as P_url
 from pyramid import traversal as P_trav
 
-RULE = ('a helper case is non-trivial when some supplied element / query key or value / anchor / route value / '
+RULE = ('a history is non-trivial when it has at least two calls; a helper case is non-trivial when some supplied element / query key or value / anchor / route value / '
         'SCRIPT_NAME holds a character that must be percent-encoded (outside ALPHA DIGIT -._~), or an override '
         '(_app_url/_scheme/_host/_port) is present; an encoder/parser case when its text holds "%", "+", a reserved '
         'or a non-ASCII character; distinct = distinct canonical case JSON')
@@ -117,8 +119,43 @@ def make_request(case, registry):
     if cur:
         mapper = registry.getUtility(IRoutesMapper)
         req.matched_route = mapper.get_route(cur['matched']) if cur.get('matched') is not None else None
-        req.matchdict = {k: (tuple(v) if isinstance(v, list) else v) for k, v in cur.get('matchdict', [])}
+        req.matchdict = {k: (tuple(py_val(x) for x in v) if isinstance(v, list) else py_val(v)) for k, v in cur.get('matchdict', [])}
     return req
+
+
+def py_val(x):
+    """JSON leaf -> the Python object handed to the helper: {"b": text} is `bytes` (UTF-8), {"f": "1.0"} a float
+    (floats travel as text), true/false are bools, everything else itself"""
+    if isinstance(x, dict):
+        if 'b' in x:
+            return x['b'].encode('utf-8')
+        return float(x['f'])
+    return x
+
+
+def txt_val(x):
+    """the text the property speaks about for that leaf: `str(x)`, and the decoded text of a `bytes`"""
+    if isinstance(x, dict):
+        if 'b' in x:
+            return x['b']
+        return str(float(x['f']))
+    return str(x)
+
+
+def py_deep(x, kind='list'):
+    if isinstance(x, list):
+        return tuple(py_deep(y, kind) for y in x) if kind == 'tuple' else [py_deep(y, kind) for y in x]
+    return py_val(x)
+
+
+def clear_caches():
+    """forget everything the URL code memoises (functools caches of url.py / traversal.py, the segment cache)"""
+    for mod in (P_url, P_trav, P_encode):
+        for name in dir(mod):
+            f = getattr(mod, name, None)
+            if callable(getattr(f, 'cache_clear', None)):
+                f.cache_clear()
+    P_trav._segment_cache.clear()
 
 
 def build_seq(v, kind):
@@ -141,8 +178,10 @@ def build_query(q):
     pairs = []
     for k, v in q['v']:
         if isinstance(v, list):
-            v = build_seq([tuple(x) if (isinstance(x, list) and kind == 'tuple') else x for x in v], kind)
-        pairs.append((k, v))
+            v = build_seq([py_deep(x, kind) for x in v], kind)
+        else:
+            v = py_val(v) if v is not None else None
+        pairs.append((py_val(k), v))
     form = q.get('form', 'list')
     if form == 'dict':
         return True, dict(pairs)
@@ -159,14 +198,8 @@ def build_query(q):
 def render_leaf(x, kind='list'):
     """`str()` of a value as the real call sees it"""
     if isinstance(x, list):
-        return str(tuple(render_obj(y, kind) for y in x) if kind == 'tuple' else [render_obj(y, kind) for y in x])
-    return str(x)
-
-
-def render_obj(x, kind):
-    if isinstance(x, list):
-        return tuple(render_obj(y, kind) for y in x) if kind == 'tuple' else [render_obj(y, kind) for y in x]
-    return x
+        return str(py_deep(x, kind))
+    return txt_val(x)
 
 
 def query_items(q):
@@ -177,16 +210,17 @@ def query_items(q):
     if q.get('form') == 'dict':
         d = {}
         for k, v in pairs:
-            d[k] = v
-        pairs = list(d.items())
+            pk = py_val(k)
+            d[pk] = (d[pk][0] if pk in d else k, v)       # a later equal key replaces the value, keeps the first key object
+        pairs = list(d.values())
     out = []
     for k, v in pairs:
         if v is None:
-            out.append([str(k), None])
+            out.append([txt_val(k), None])
         elif isinstance(v, list):
-            out.append([str(k), [render_leaf(x, kind) for x in v]])
+            out.append([txt_val(k), [render_leaf(x, kind) for x in v]])
         else:
-            out.append([str(k), str(v)])
+            out.append([txt_val(k), txt_val(v)])
     return out
 
 
@@ -217,15 +251,15 @@ def call_helper(case, helper=None, drop=()):
     has_q, qobj = build_query(o.get('query'))
     if has_q:
         kw[under + 'query'] = qobj
-    elements = tuple(case.get('elements', []))
+    elements = tuple(py_val(x) for x in case.get('elements', []))
     try:
         if helper.startswith('route'):
             for k, v in case.get('kw', []):
-                kw[k] = tuple(v) if isinstance(v, list) else v
+                kw[k] = tuple(py_val(x) for x in v) if isinstance(v, list) else py_val(v)
             r = getattr(req, helper)(case['route'], *elements, **kw)
         elif helper.startswith('current'):
             for k, v in case.get('kw', []):
-                kw[k] = tuple(v) if isinstance(v, list) else v
+                kw[k] = tuple(py_val(x) for x in v) if isinstance(v, list) else py_val(v)
             cur = case.get('cur') or {}
             if cur.get('route_name') is not None:
                 kw['_route_name'] = cur['route_name']
@@ -320,7 +354,7 @@ def static_regs(case):
 def kw_model(kw):
     out = []
     for k, v in kw:
-        out.append([k, [str(x) for x in v] if isinstance(v, list) else str(v)])
+        out.append([k, [txt_val(x) for x in v] if isinstance(v, list) else txt_val(v)])
     return out
 
 
@@ -348,7 +382,7 @@ def to_model(case):
          'env': {'scheme': e['scheme'], 'host': e.get('host'), 'server_name': e['server_name'],
                  'server_port': e['server_port'], 'script_name': e['script_name']},
          'routes': [[r['name'], [p[:2] for p in r['pieces']]] for r in case.get('routes', [])] + sroutes,
-         'statics': regs, 'route': case.get('route'), 'elements': [str(x) for x in case.get('elements', [])],
+         'statics': regs, 'route': case.get('route'), 'elements': [txt_val(x) for x in case.get('elements', [])],
          'kw': kw_model(case.get('kw', [])), 'ovr': mo, 'resource': case.get('resource', []),
          'path': case.get('path')}
     rr = case.get('res_route')
@@ -538,7 +572,7 @@ def oracle(case):
     if d['split'] is None:
         problems.append('parse: urlsplit refuses the output')
     else:
-        els = [str(x) for x in case.get('elements', [])]
+        els = [txt_val(x) for x in case.get('elements', [])]
         if els and d.get('elements') != els:
             problems.append('elements: decoded %r, supplied %r' % (d.get('elements'), els))
         q = o.get('query')
@@ -781,7 +815,7 @@ def gen_qval(rng, depth=0):
     if r < 0.62:
         return gen_text(rng)
     if r < 0.7:
-        return rng.choice([0, 1, 42, -7, 10 ** 12])
+        return rng.choice([0, 1, 42, -7, 10 ** 12, True, False, {'f': '1.0'}, {'f': '-0.5'}])
     n = rng.choice([0, 1, 2, 2, 3])
     out = []
     for _ in range(n):
@@ -809,6 +843,8 @@ def gen_query(rng):
     pairs = []
     for _ in range(n):
         k = rng.choice(keys) if rng.random() < 0.7 else gen_text(rng, 4)
+        if form in ('list', 'tuples', 'itemsobj') and rng.random() < 0.05:
+            k = rng.choice([{'b': 'a'}, {'b': 'k k'}, 1, True])
         v = gen_qval(rng)
         if form == 'multidict' and (v is None or isinstance(v, list)) and rng.random() < 0.5:
             v = gen_text(rng)
@@ -846,7 +882,7 @@ def gen_ovr(rng, path_helper=False):
 
 def gen_elements(rng):
     n = rng.choice([0, 0, 1, 1, 2, 3])
-    return [gen_text(rng, 5) if rng.random() < 0.93 else rng.choice([0, 17]) for _ in range(n)]
+    return [gen_text(rng, 5) if rng.random() < 0.9 else rng.choice([0, 17, True, False, 1, {'f': '1.0'}, {'f': '2.5'}, {'b': 'a'}, {'b': 'é b'}]) for _ in range(n)]
 
 
 def gen_kw_for(rng, pieces, p_missing=0.04):
@@ -855,7 +891,7 @@ def gen_kw_for(rng, pieces, p_missing=0.04):
         if p[0] == 'p':
             if rng.random() < p_missing:
                 continue
-            kw.append([p[1], gen_text(rng, 4) if rng.random() < 0.9 else rng.choice([7, 2024])])
+            kw.append([p[1], gen_text(rng, 4) if rng.random() < 0.88 else rng.choice([7, 2024, True, 1, {'f': '1.0'}, {'b': 'a/b'}])])
         elif p[0] == 's':
             if rng.random() < p_missing:
                 continue
@@ -893,7 +929,7 @@ def gen_case(rng):
         rt = rng.choice(routes)
         other = rng.choice(routes)
         md = gen_kw_for(rng, rt['pieces'], p_missing=0.0)
-        md = [[k, v] for k, v in md if k != 'extra']
+        md = [[k, [txt_val(x) for x in v] if isinstance(v, list) else txt_val(v)] for k, v in md if k != 'extra']   # a match dictionary holds text
         cur = {'matched': rt['name'] if rng.random() < 0.93 else None, 'matchdict': md,
                'get': [[rng.choice(['a', 'b', 'q', 'é', 'k k']), gen_text(rng, 4, p_control=0.0)] for _ in range(rng.choice([0, 0, 1, 2, 3]))],
                'route_name': other['name'] if rng.random() < 0.2 else None}
@@ -966,7 +1002,9 @@ def nontrivial(case):
     o = case.get('ovr') or {}
     if any(o.get(k) is not None for k in ('app_url', 'scheme', 'host', 'port')):
         return True
-    texts = [str(x) for x in case.get('elements', [])] + [case['env']['script_name'].replace('/', '')]
+    if case.get('op') == 'history':
+        return len(case['calls']) >= 2
+    texts = [txt_val(x) for x in case.get('elements', [])] + [case['env']['script_name'].replace('/', '')]
     if o.get('anchor'):
         texts.append(o['anchor'])
     q = o.get('query')
@@ -980,12 +1018,27 @@ def nontrivial(case):
 
 
 def run_cases(ctx, cases, dist, res, stream):
+    hcases = [c for c in cases if c.get('op') == 'history']
+    if hcases:
+        run_histories(ctx, hcases, dist, res, stream)
+        cases = [c for c in cases if c.get('op') != 'history']
     model = ctx.run_model([to_model(c) for c in cases]) if ctx.driver_path else [None] * len(cases)
     for case, mo in zip(cases, model):
         if case.get('op', 'url') == 'url':
             m, v = check_case(case, mo)
             bump(dist['helper'], case['helper'])
             iv = call_helper(case)
+            if v and not v.get('finding'):
+                # does the call violate the property on its own, or only after the calls made before it?
+                clear_caches()
+                if not oracle(case)[0]:
+                    h = minimise_history([c for c, _ in res['_done']], case)
+                    problems, hist, fresh = history_problems(h)
+                    v = {'case': h, 'impl': {'in_sequence': hist, 'on_its_own': fresh},
+                         'expected': 'the same result for the same call, whatever was called before',
+                         'detail': ('history-dependent (%s); ' % v['detail'][:300]) + '; '.join(problems)[:1000]}
+                    bump(dist, 'history_dependent_violations')
+            res['_done'].append((case, iv))
             bump(dist['outcome'], iv.get('err', 'url'))
             if mo is not None and mo.get('err') == 'outside':
                 bump(dist, 'outside_model')
@@ -1016,15 +1069,171 @@ def run_cases(ctx, cases, dist, res, stream):
                 res['_nontriv'] += 1
 
 
+# ------------------------------------------------------------------------------------------------
+# history independence: a helper's result must not depend on the calls made before it
+
+TWINS = [[True, 1, {'f': '1.0'}], [False, 0, {'f': '0.0'}], [2, {'f': '2.0'}], ['a', {'b': 'a'}], ['é/', {'b': 'é/'}],
+         [True, 'True'], [1, '1', {'b': '1'}], [{'f': '1.0'}, '1.0']]
+
+
+def history_results(calls):
+    """(results in sequence after one cache reset, results of each call on its own after a cache reset)"""
+    clear_caches()
+    hist = [call_helper(c) for c in calls]
+    fresh = []
+    for c in calls:
+        clear_caches()
+        fresh.append(call_helper(c))
+    return hist, fresh
+
+
+def history_problems(hcase):
+    calls = hcase['calls']
+    hist, fresh = history_results(calls)
+    problems = []
+    for i, (h, f) in enumerate(zip(hist, fresh)):
+        if h != f:
+            problems.append('history: call %d returns %r after the earlier calls but %r on its own' % (i, h, f))
+    for i, c in enumerate(calls):
+        clear_caches()
+        ps, r = oracle(c)
+        if ps and not classify(c, ps, r.get('url')):
+            problems.append('call %d: %s' % (i, '; '.join(ps)))
+    return problems, hist, fresh
+
+
+def history_check(hcase, mos):
+    """(mismatch|None, violation|None); `mos` = the driver's replies for the calls, in order (or None)"""
+    problems, hist, fresh = history_problems(hcase)
+    viol = mism = None
+    if problems:
+        viol = {'case': hcase, 'impl': {'in_sequence': hist, 'on_its_own': fresh}, 'expected': 'the same result for the same call, whatever was called before',
+                'detail': '; '.join(problems)[:1500]}
+    if mos is not None:
+        for i, (c, mo, h) in enumerate(zip(hcase['calls'], mos, hist)):
+            mv = model_view(mo)
+            if mv.get('err') == 'outside':
+                continue
+            if (mv.get('url'), mv.get('err')) != (h.get('url'), h.get('err')):
+                mism = {'case': hcase, 'impl': {'call': i, 'result': h}, 'model': {k: mv.get(k) for k in ('url', 'err', 'model_error')}}
+                break
+    return mism, viol
+
+
+def set_slot(case, slot, val):
+    c = json.loads(json.dumps(case))
+    kind, i = slot
+    if kind == 'element':
+        c['elements'][i] = val
+    elif kind == 'kw':
+        c['kw'][i][1] = val
+    elif kind == 'qval':
+        c['ovr']['query']['v'][i][1] = val
+    elif kind == 'qseq':
+        c['ovr']['query']['v'][i][1] = [val, 'z']
+    elif kind == 'qkey':
+        c['ovr']['query']['v'][i][0] = val
+    return c
+
+
+def gen_history(rng):
+    """2-4 calls that differ only in one slot (an element, a route value, a query value, an item of a query
+    sequence, a query key), filled with values that compare equal / hash equal but print differently, in random
+    order, sometimes with an unrelated call in between"""
+    for _ in range(50):
+        base = gen_case(rng)
+        if base['helper'].startswith('static') or base.get('route') == 'nosuch':
+            continue
+        if not base.get('elements'):
+            base['elements'] = [gen_text(rng, 3)]
+        slots = [('element', i) for i in range(len(base['elements']))]
+        slots += [('kw', i) for i, (k, v) in enumerate(base.get('kw', [])) if not isinstance(v, list)]
+        q = (base.get('ovr') or {}).get('query')
+        if q and q['t'] == 'pairs' and q['v'] and q.get('form') != 'multidict':
+            slots += [('qval', i) for i in range(len(q['v']))] + [('qseq', i) for i in range(len(q['v']))]
+            if q.get('form') != 'dict':
+                slots += [('qkey', i) for i in range(len(q['v']))]
+        slot = rng.choice(slots)
+        group = list(rng.choice(TWINS))
+        if slot[0] == 'qval' or slot[0] == 'qseq':
+            group = [g for g in group if not (isinstance(g, dict) and 'b' in g)]     # a bytes *value* is a sequence of ints
+            if len(group) < 2:
+                continue
+        rng.shuffle(group)
+        calls = [set_slot(base, slot, g) for g in group]
+        if rng.random() < 0.4:
+            calls.append(set_slot(base, slot, group[0]))
+        if rng.random() < 0.3:
+            calls.insert(rng.randrange(len(calls)), gen_case(rng))
+        return {'op': 'history', 'calls': calls}
+    return {'op': 'history', 'calls': [WITNESS_C17A, WITNESS_C17A]}
+
+
+def run_histories(ctx, hcases, dist, res, stream):
+    flat = [to_model(c) for h in hcases for c in h['calls']]
+    replies = ctx.run_model(flat) if ctx.driver_path and flat else [None] * len(flat)
+    pos = 0
+    for h in hcases:
+        n = len(h['calls'])
+        mos = replies[pos:pos + n] if ctx.driver_path else None
+        pos += n
+        m, v = history_check(h, mos)
+        bump(dist['history_len'], n)
+        if m:
+            m['stream'] = stream
+            res['mismatches'].append(m)
+        elif mos is not None:
+            res['agreeing'] += 1
+        if v:
+            v['stream'] = stream
+            res['violations'].append(v)
+        key = vfutil.canon(h)
+        if key not in res['_seen']:
+            res['_seen'].add(key)
+            if nontrivial(h):
+                res['_nontriv'] += 1
+
+
+def second_pass(ctx, done_cases, dist, res):
+    """every helper call once more, in a shuffled order (so with a different history): same result, or a violation
+    whose case is a short history that reproduces the difference"""
+    order = list(range(len(done_cases)))
+    ctx.rng.shuffle(order)
+    seen_before = []
+    for idx in order:
+        case, first = done_cases[idx]
+        again = call_helper(case)
+        if again != first and len([v for v in res['violations'] if v.get('stream') == 'second-pass']) < 3:
+            h = minimise_history([c for c, _ in seen_before], case)
+            problems, hist, fresh = history_problems(h)
+            res['violations'].append({'case': h, 'impl': {'first': first, 'again': again, 'in_sequence': hist, 'on_its_own': fresh},
+                                      'expected': 'the same result for the same call, whatever was called before',
+                                      'detail': ('history: %r first, %r in a later history; ' % (first, again)) + '; '.join(problems)[:1000],
+                                      'stream': 'second-pass'})
+        seen_before.append((case, first))
+        bump(dist, 'second_pass_calls')
+
+
+def minimise_history(before, case, limit=4000):
+    for p in reversed(before[-limit:]):
+        h = {'op': 'history', 'calls': [p, case]}
+        hist, fresh = history_results(h['calls'])
+        if hist != fresh:
+            return h
+    return {'op': 'history', 'calls': before[-200:] + [case]}
+
+
 def in_domain(c):
     """the shrinker must not leave the property's domain (well-formed environ)"""
     e = c.get('env') or {}
-    return (e.get('scheme') in ('http', 'https') and (e.get('host') is None or e.get('host')) and e.get('server_name')
+    return (c.get('op', 'url') == 'url' and e.get('scheme') in ('http', 'https') and (e.get('host') is None or e.get('host')) and e.get('server_name')
             and e.get('server_port') and (e.get('script_name') == '' or str(e.get('script_name', 'x')).startswith('/')))
 
 
 def still_violates(c, finding=None):
     try:
+        if c.get('op') == 'history':
+            return len(c['calls']) >= 1 and all(in_domain(x) for x in c['calls']) and bool(history_problems(c)[0])
         if c.get('op', 'url') == 'url':
             if not in_domain(c):
                 return False
@@ -1041,8 +1250,11 @@ def shrink_violations(viol, limit=3):
         if v.get('finding'):
             out.append(v)
             continue
-        small = vfutil.shrink(v['case'], lambda c: still_violates(c, None), max_steps=400)
-        if small.get('op', 'url') == 'url':
+        small = vfutil.shrink(v['case'], lambda c: still_violates(c, None), max_steps=400 if v['case'].get('op') != 'history' else 150)
+        if small.get('op') == 'history':
+            problems, hist, fresh = history_problems(small)
+            v = dict(v, case=small, impl={'in_sequence': hist, 'on_its_own': fresh}, detail='; '.join(problems)[:1500])
+        elif small.get('op', 'url') == 'url':
             problems, _ = oracle(small)
             v = dict(v, case=small, impl=impl_view(small), detail='; '.join(problems))
         else:
@@ -1059,8 +1271,8 @@ WITNESS_C17A = {'op': 'url', 'helper': 'route_path',
 def run(ctx):
     rng = ctx.rng
     dist = {'helper': {}, 'outcome': {}, 'overrides': {}, 'query_form': {}, 'elements': {}, 'host_kind': {}, 'raw_op': {},
-            'outside_model': 0, 'external_static': 0}
-    res = {'mismatches': [], 'violations': [], 'agreeing': 0, '_seen': set(), '_nontriv': 0}
+            'outside_model': 0, 'external_static': 0, 'history_len': {}, 'second_pass_calls': 0}
+    res = {'mismatches': [], 'violations': [], 'agreeing': 0, '_seen': set(), '_nontriv': 0, '_done': []}
     corpus = [c for _, c in ctx.corpus()]
     run_cases(ctx, corpus, dist, res, 'corpus')
     n_url, n_raw = ctx.n(2200, 40000), ctx.n(2500, 60000)
@@ -1077,17 +1289,23 @@ def run(ctx):
     # override cube (exhaustive within its scope): small in the quick tier, full in the thorough tier
     cube = list(override_cube(small=(ctx.tier == 'quick')))
     run_cases(ctx, cube, dist, res, 'override-cube')
+    # history independence: twin histories (equal-but-differently-printed values in one slot), then every helper
+    # call of this run once more in a shuffled order
+    hists = [gen_history(rng) for _ in range(ctx.n(300, 4000))]
+    run_histories(ctx, hists, dist, res, 'histories')
+    second_pass(ctx, res['_done'], dist, res)
     res['violations'] = shrink_violations(res['violations'])
-    total = len(corpus) + done + len(raws) + len(cube)
+    total = len(corpus) + done + len(raws) + len(cube) + len(hists)
     return {'evaluations': total, 'distinct_nontrivial': res['_nontriv'], 'rule': RULE, 'agreeing': res['agreeing'],
-            'samples': samples + raws[:2], 'mismatches': res['mismatches'][:20], 'violations': res['violations'],
+            'samples': samples + raws[:2] + hists[:1], 'mismatches': res['mismatches'][:20], 'violations': res['violations'],
             'distribution': dist, 'exhaustive': False,
-            'notes': ['corpus %d, helper cases %d, encoder/parser cases %d, override cube %d' % (len(corpus), done, len(raws), len(cube)),
+            'notes': ['corpus %d, helper cases %d, encoder/parser cases %d, override cube %d, twin histories %d, second-pass calls %d' % (len(corpus), done, len(raws), len(cube), len(hists), dist['second_pass_calls']),
+                      'history clause: every history is run in sequence after one cache reset and call by call after a reset each; every helper call of the run is repeated in a shuffled order; results must be equal',
                       'each helper case runs the helper, its *_path/*_url sibling and (with _app_url) the call without _scheme/_host/_port on the real code'],
             'assumptions': [
                 'Host / _host / _scheme / _port / _app_url values are the caller\'s and are generated well-formed (the helpers copy them verbatim)',
                 'SCRIPT_NAME is empty or starts with "/" (PEP 3333); non-root resources have non-empty names; route patterns start with "/"',
-                'values reach the helpers as str (int / nested sequences go through Python\'s own str())',
+                'values reach the helpers as str, bytes (UTF-8), bool, int, float (non-str go through Python\'s own str(); a bytes *query value* is a sequence of ints for is_nonstr_iter and is not generated)',
                 'external static base + subpath goes through urllib.parse.urljoin: only subpaths without "", ".", ".." segments are modelled (others counted as outside_model)'],
             'trusted_base': ['urllib.parse (urlsplit, parse_qsl, unquote, quote_from_bytes) and WebOb (host_url, application_url, script_name decoding, GET parsing) are modelled and tied by this correspondence run only',
                              'Python str(), dict / MultiDict item order',
@@ -1132,7 +1350,12 @@ def search(ctx):
     def consider(case):
         nonlocal n
         n += 1
-        if case.get('op', 'url') == 'url':
+        if case.get('op') == 'history':
+            problems, hist, fresh = history_problems(case)
+            if problems:
+                viol.append({'case': case, 'impl': {'in_sequence': hist, 'on_its_own': fresh},
+                             'expected': 'the same result for the same call, whatever was called before', 'detail': '; '.join(problems)[:1500]})
+        elif case.get('op', 'url') == 'url':
             problems, r = oracle(case)
             if problems and not classify(case, problems, r.get('url')):
                 viol.append({'case': case, 'impl': impl_view(case), 'expected': 'no violated clause', 'detail': '; '.join(problems)})
@@ -1186,6 +1409,29 @@ def search(ctx):
                 return finish(False)
         if consider({'op': 'urlencode', 'pairs': [[t, t], [t, None], [t, [t, ch]], [ch, []]]}):
             return finish(False)
+    # twin histories: every group of equal-but-differently-printed values, both orders, in every slot kind
+    tw_env = dict(base_env)
+    tw_base = {'op': 'url', 'helper': 'route_path', 'env': tw_env, 'routes': routes, 'statics': [], 'route': 'r',
+               'elements': ['e', 'f'], 'kw': [['x', 'v'], ['rest', ['u']]],
+               'ovr': {'query': {'t': 'pairs', 'form': 'list', 'seq': 'list', 'v': [['k', 'v'], ['l', 'w']]}}}
+    for group in TWINS:
+        for a in group:
+            for b in group:
+                if a is b:
+                    continue
+                for slot in (('element', 0), ('element', 1), ('kw', 0), ('qval', 0), ('qseq', 1), ('qkey', 0)):
+                    if slot[0] in ('qval', 'qseq') and any(isinstance(g, dict) and 'b' in g for g in (a, b)):
+                        continue
+                    for helper in ('route_path', 'route_url', 'resource_url', 'current_route_path'):
+                        if helper.startswith('resource') and slot[0] == 'kw':
+                            continue
+                        base = dict(tw_base, helper=helper)
+                        if helper.startswith('resource'):
+                            base = dict(base, resource=['n'])
+                        if helper.startswith('current'):
+                            base = dict(base, cur={'matched': 'r', 'matchdict': [['x', 'm'], ['rest', []]], 'get': [], 'route_name': None})
+                        if consider({'op': 'history', 'calls': [set_slot(base, slot, a), set_slot(base, slot, b)]}):
+                            return finish(False)
     for case in override_cube(small=False):
         if consider(case):
             return finish(False)
@@ -1193,7 +1439,7 @@ def search(ctx):
             return finish(False)
     rng = ctx.rng
     for i in range(40000):
-        if consider(gen_case(rng) if i % 3 else gen_raw(rng)):
+        if consider(gen_history(rng) if i % 10 == 0 else gen_case(rng) if i % 3 else gen_raw(rng)):
             return finish(False)
         if ctx.time_left() < 60:
             break
@@ -1204,6 +1450,13 @@ def replay(ctx, rep):
     case = rep.get('case')
     if case is None:
         return {'violates': False, 'note': 'replay names broken obligations only', 'broken': rep.get('broken_obligations')}
+    if case.get('op') == 'history':
+        mos = ctx.run_model([to_model(c) for c in case['calls']]) if ctx.driver_path else None
+        m, v = history_check(case, mos)
+        problems, hist, fresh = history_problems(case)
+        return {'case': case, 'impl': {'in_sequence': hist, 'on_its_own': fresh},
+                'model': None if mos is None else [{k: model_view(mo).get(k) for k in ('url', 'err')} for mo in mos],
+                'violated_clauses': problems, 'mismatch': m, 'violates': bool(problems)}
     mo = ctx.run_model([to_model(case)])[0] if ctx.driver_path else None
     if case.get('op', 'url') == 'url':
         problems, r = oracle(case)
